@@ -28,6 +28,12 @@ func InitGenesis(
 	// Set genesis state
 	maxSupply := data.MaxSupply
 	k.SetMaxSupply(ctx, maxSupply)
+
+	// Restore the timestamp of the last processed block, so that minting
+	// continues from the exported state instead of skipping a block.
+	if !data.PrevBlockTs.IsNil() && data.PrevBlockTs.IsPositive() {
+		k.SetPrevBlockTS(ctx, data.PrevBlockTs)
+	}
 }
 
 // ExportGenesis returns a GenesisState for a given context and keeper.
